@@ -1364,6 +1364,161 @@ def part_recordings(ctx, objdir):
                           r_replay_obj(sc, r, {"first": list(r["probes"][r["mismatch"][0]])}), False)
 
 
+
+# ---------------------------------------------------------------- X: real recordings across fork and exec
+# Two NON-PIE executables whose functions overlap in address: the parent (progA) forks, the child runs
+# progA code, then execs progB.  A record of the child is progA's before the exec and progB's after it:
+# "the session in force at the record's timestamp".  Ground truth: nm/objdump of both files, the
+# program's own log of the child pids, and the child's execl() record (PLT address known from objdump).
+X_A_C = r"""
+#include <stdio.h>
+#include <stdlib.h>
+#include <unistd.h>
+#include <sys/wait.h>
+volatile int sink;
+int c10x_a_work(int x) { sink += x; return x + 1; }
+int c10x_a_child(int x) { sink += x; return x + 2; }
+int c10x_a_after(int x) { sink += x; return x + 3; }
+int main(int argc, char **argv)
+{
+	int st = 0, i; pid_t pid;
+	c10x_a_work(argc);
+	for (i = 0; i < %(nchild)d; i++) {
+		pid = fork();
+		if (pid == 0) {
+			c10x_a_child(i);
+			if (%(execmask)d & (1 << i))
+				execl(argv[1], argv[1], (char *)0);
+			c10x_a_after(i);
+			_exit(0);
+		}
+		fprintf(stderr, "C10CHILD %%d %%d\n", (int)pid, (%(execmask)d >> i) & 1);
+		waitpid(pid, &st, 0);
+		c10x_a_after(st);
+	}
+	return 0;
+}
+"""
+X_B_C = r"""
+volatile int sink;
+int c10x_b_one(int x) { sink += x; return x * 2; }
+int c10x_b_two(int x) { sink += x; return c10x_b_one(x) + 1; }
+int c10x_b_three(int x) { sink += x; return c10x_b_two(x) + 1; }
+int main(int argc, char **argv) { return c10x_b_three(argc) == 12345; }
+"""
+
+X_EVALS = [
+    ("vname", "bad_indices (fun pr => match pr with (tid, t, a, ans) => ok_resolve_name xgs xtl tid t a ans end) xprobes 0"),
+    ("vmod", "bad_indices (fun pr => match pr with (shown, want) => str_eqb shown want end) xmods 0"),
+    ("mismatch", "let lk := open_data dem_plain xdir in bad_indices (fun pr => match pr with (tid, t, a, ans) => "
+                 "match resolve lk tid t a, ans with Some s, Some nm => str_eqb (s_name s) nm | None, None => true | _, _ => false end end) xprobes 0"),
+]
+
+
+def part_forkexec(ctx, objdir):
+    rng = ctx.rng
+    uft = os.path.join(objdir, "uftrace")
+    root = os.path.join(ctx.scratch, "forkexec")
+    os.makedirs(root, exist_ok=True)
+    variants = [("x0", 1, 1)] + [("x%d" % (k + 1), rng.randrange(1, 4), rng.randrange(0, 8)) for k in range(ctx.n(1, 4))]
+    for tag, nchild, execmask in variants:
+        execmask &= (1 << nchild) - 1
+        w = os.path.join(root, tag)
+        os.makedirs(w)
+        open(os.path.join(w, "a.c"), "w").write(X_A_C % {"nchild": nchild, "execmask": execmask})
+        open(os.path.join(w, "b.c"), "w").write(X_B_C)
+        sh(["gcc", "-pg", "-O0", "-fno-pie", "-no-pie", "-o", "progA", "a.c"], cwd=w, check=True)
+        sh(["gcc", "-pg", "-O0", "-fno-pie", "-no-pie", "-o", "progB", "b.c"], cwd=w, check=True)
+        d = os.path.join(w, "data")
+        rc, out, err = sh(["timeout", "40", uft, "record", "--no-pager", "--no-event", "--libmcount-path=" + objdir, "-d", d,
+                           "./progA", os.path.join(w, "progB")], timeout=60, cwd=w)
+        if rc == 124 or not os.path.exists(os.path.join(d, "task.txt")):
+            ctx.broken("forkexec(%s): uftrace record failed (rc=%d): %s" % (tag, rc, (out + err)[-300:]))
+            continue
+        children = [(int(l.split()[1]), int(l.split()[2])) for l in (out + err).splitlines() if l.startswith("C10CHILD ")]
+        rc, rout, rerr = datadir.uftrace(objdir, "replay", d, ["-f", "tid,addr,time,module", "--demangle=no"])
+        recs = parse_replay_fields(rout)
+        rc2, dout, derr = datadir.uftrace(objdir, "dump", d, ["--demangle=no"])
+        tabs = {n: [(a, sz, nm) for a, sz, nm in nm_funcs(os.path.join(w, n)) + objdump_plt(os.path.join(w, n))] for n in ("progA", "progB")}
+        execl_addr = [a for a, sz, nm in tabs["progA"] if nm == "execl"]
+        events = parse_task_txt(os.path.join(d, "task.txt"))
+        parent = [e[1] for e in events if e[0] == "SESS"][0]
+        timeline = {parent: [(0, 0)]}
+        for pid, does_exec in children:
+            tl = [(0, 0)]
+            if does_exec:
+                tx = [t for tid, addr, t, mod, nm in recs if tid == pid and execl_addr and addr == execl_addr[0]]
+                if not tx:
+                    ctx.broken("forkexec(%s): child %d has no execl() record" % (tag, pid), rout[-1500:])
+                    continue
+                tl.append((tx[0] + 1, 1))
+            timeline[pid] = tl
+
+        def in_force(tid, t):
+            cur = None
+            for st_, si in timeline.get(tid, []):
+                if st_ <= t:
+                    cur = si
+            return cur
+        names = ["progA", "progB"]
+        probes, modrows, raw = [], [], []
+        for tid, addr, t, mod, nm in recs:
+            israw = nm.startswith("<") and nm.endswith(">")
+            probes.append((tid, t, addr, None if israw else nm))
+            si = in_force(tid, t)
+            if si is not None and any(a <= addr < a + sz for a, sz, _ in tabs[names[si]]):
+                modrows.append((mod, names[si]))
+            if israw and addr != 0:
+                raw.append(["%x" % addr, tid])
+        for tid, t, addr, nm in parse_dump(dout):
+            probes.append((tid, t, addr, None if nm.startswith("<") else nm))
+        maps, files = {}, {}
+        for e in events:
+            if e[0] == "SESS":
+                maps[e[3]] = open(os.path.join(d, "sid-%s.map" % e[3]), "rb").read()
+        for n in names:
+            fn = os.path.join(d, n + ".sym")
+            if os.path.exists(fn):
+                files[n + ".sym"] = open(fn, "rb").read()
+        defs = "Definition xgs : list gt_session := [%s].\n" % "; ".join(
+            "mkGt [(0, %d, %s)] []" % (max(a + sz for a, sz, _ in tabs[n]), ctab([(a, sz, "T", nm) for a, sz, nm in tabs[n]])) for n in names)
+        defs += "Definition xtl : list (Z * list (Z * nat)) := [%s].\n" % "; ".join(
+            "(%d, [%s])" % (tid, "; ".join("(%d, %d%%nat)" % x for x in tl)) for tid, tl in sorted(timeline.items()))
+        defs += "Definition xprobes : list (Z * Z * Z * option str) := [%s].\n" % "; ".join(
+            "(%d, %d, %d, %s)" % (p[0], p[1], p[2], copt(p[3], cstr)) for p in probes)
+        defs += "Definition xmods : list (str * str) := [%s].\n" % "; ".join("(%s, %s)" % (cstr(a), cstr(b)) for a, b in modrows)
+        defs += "Definition xdir : datadir := mkDir [%s] [%s] [%s] false.\n" % (
+            "; ".join(cevent(e) for e in events),
+            "; ".join("(%s, %s)" % (cstr(k), cstr(v)) for k, v in maps.items()),
+            "; ".join("(%s, %s)" % (cstr(k), cstr(v)) for k, v in files.items()))
+        res = coq.run_cases(ctx, "cases_x_" + tag, PRE, defs, X_EVALS, timeout=600)
+        nexec = sum(1 for _, e in children if e)
+        ctx.case(key=("X", tag, nchild, execmask), tags=["X:fork", "X:children=%d" % nchild, "X:exec=%d" % nexec,
+                                                          "X:overlapping-addresses"], size=len(recs),
+                 sample={"part": "X", "children": children, "functions": [(r[0], r[4]) for r in recs][:16]} if tag == "x0" else None)
+        if res is None:
+            continue
+        r = {k: coq.parse_nat_list(v) for k, v in res.items()}
+        seen = set((tid == parent, nm) for tid, addr, t, mod, nm in recs)
+        need = {(True, "c10x_a_work"), (True, "c10x_a_after"), (False, "c10x_a_child")} | ({(False, "c10x_b_one")} if nexec else set())
+        rep = {"part": "X", "children": children, "source_a": X_A_C % {"nchild": nchild, "execmask": execmask}, "replay": rout[-3000:],
+               "task_txt": open(os.path.join(d, "task.txt")).read(), "timeline": {str(k): v for k, v in timeline.items()}}
+        if r["vname"] or r["vmod"] or raw or not need <= seen:
+            what = []
+            if r["vname"]:
+                what.append("%d records under a wrong name: %s" % (len(r["vname"]), [list(probes[i]) for i in r["vname"][:3]]))
+            if r["vmod"]:
+                what.append("%d records under a wrong module" % len(r["vmod"]))
+            if raw:
+                what.append("raw addresses %s" % raw[:4])
+            if not need <= seen:
+                what.append("functions missing from replay: %s" % sorted(need - seen))
+            ctx.violation("real recording across fork/exec (two non-PIE programs with overlapping addresses): " + "; ".join(what), rep, True)
+        elif r["mismatch"]:
+            ctx.violation("model of the analysis side and `uftrace replay` disagree on a fork/exec recording (%d records)" % len(r["mismatch"]),
+                          dict(rep, first=list(probes[r["mismatch"][0]])), False)
+
+
 # ---------------------------------------------------------------- P: PLT entries of real ELF files
 # Executables built -no-pie / -pie, with and without address-taken library functions (canonical PLT
 # entries: st_value != 0 in an undefined dynsym), with and without .plt.sec.  Ground truth: objdump's
@@ -1708,6 +1863,7 @@ def run(ctx):
                     ("S symbol files", lambda: part_symfiles(ctx, h)), ("M map files", lambda: part_maps(ctx, h, objdir)),
                     ("D data directories", lambda: part_datadirs(ctx, h)), ("E end to end", lambda: part_e2e(ctx, objdir)),
                     ("R real recordings with static initialisers", lambda: part_recordings(ctx, objdir)),
+                    ("X real recordings across fork and exec", lambda: part_forkexec(ctx, objdir)),
                     ("P PLT entries of ELF files", lambda: part_plt(ctx, h, objdir))):
         n0 = ctx.evaluations
         f()
@@ -1753,5 +1909,7 @@ def replay(ctx, obj):
             part_recordings(ctx, objdir)
         elif part == "P":
             part_plt(ctx, h, objdir)
+        elif part == "X":
+            part_forkexec(ctx, objdir)
         else:
             part_kernels(ctx, h)
